@@ -436,9 +436,9 @@ let po_line = function
             let (p', w) = p_alloc p (nat n) in
             po := Some p'; "p=1 z=1" ^ po_where w ^ po_state p'
         | ("allocbig" | "callocbig" | "strndupbig"), [n] ->
-          (* size_t requests near SIZE_MAX (UT/PoolBig.v); the overflow guard of fixes/cont-pool-alloc-size-wrap.diff is modelled
-             when VERIF_C18_JUDGE_POOL_WRAP=1, the unguarded code otherwise *)
-          let guard = (try Sys.getenv "VERIF_C18_JUDGE_POOL_WRAP" = "1" with Not_found -> false) in
+          (* size_t requests near SIZE_MAX (UT/PoolBig.v); guard = true is the code since fix 435f237, the unguarded variant stays
+             only for the refutation theorem *)
+          let guard = true in
           let z = z_of_string n in
           let (p', r) = (match op with
             | "allocbig" -> p_alloc_z guard p z
